@@ -12,6 +12,10 @@ pub type Tree<const N: usize> = MerkleSearchTree<K, Val, CH, N>;
 pub fn new_tree<const N: usize>(base: u8) -> Tree<N> {
     Builder::default().with_hasher(CH).with_level_base(NonZeroU8::new(base).expect("base>0")).build()
 }
+/// the same configuration through the other builder call order (level base first, then the hasher)
+pub fn new_tree_base_first<const N: usize>(base: u8) -> Tree<N> {
+    Builder::default().with_level_base(NonZeroU8::new(base).expect("base>0")).with_hasher(CH).build()
+}
 #[allow(deprecated)]
 pub fn new_tree_deprecated<const N: usize>() -> Tree<N> {
     MerkleSearchTree::new_with_hasher(CH)
